@@ -336,4 +336,197 @@ theorem run_list_dirty_mono {cfg : Cfg} {l : Field} : ∀ (h : List Op) (s s' : 
     | save hop hlib => exact hlib.mono hd
     | same hne hc1' => subst hc1'; exact hd
 
+/-! ### fields of records -/
+
+theorem commitObjs_ok_length (allow : Bool) : ∀ (recs : List Rec) (objs : List MObj) (recs' : List Rec),
+    commitObjs allow recs objs = .ok recs' → objs.length ≤ recs.length
+  | recs, [], _, _ => by simp
+  | [], _ :: _, _, h => by simp [commitObjs] at h
+  | r :: recs, o :: os, recs', h => by
+    unfold commitObjs at h
+    split at h
+    · cases h
+    · split at h
+      · cases h
+      · next rs hrs => simp; exact commitObjs_ok_length allow recs os rs hrs
+
+/-- setting off: a marked retriever of a record survives internal writes -/
+theorem RecLib.dirty_cell {r r' : Rec} (h : RecLib false r r') {f : Field} {c : Cell Val} (hc : r f = some c)
+    (hd : c.dirty = true) : r' f = some c := by
+  rcases h f with ⟨x, _⟩ | ⟨x, c', hx, hc', hl⟩
+  · rw [hc] at x; cases x
+  · rw [hc] at hx; cases hx
+    rw [hc', hl.eq_of_dirty hd]
+
+/-- the user op assigns list `l` itself or the very cell `(l, i, f)` -/
+def Op.reassigns (l : Field) (i : Nat) (f : Field) : Op → Prop
+  | .userList k _ => k = l
+  | .userRec k j g _ => k = l ∧ j = i ∧ g = f
+  | _ => False
+
+/-- the user op touches list `l` at all (the list or any field of any of its records) -/
+def Op.touchesList (l : Field) : Op → Prop
+  | .userList k _ => k = l
+  | .userRec k _ _ _ => k = l
+  | _ => False
+
+/-- state invariant for `user_rec_value_saved` -/
+def RecCellIs (s : Scn) (l : Field) (i : Nat) (f : Field) (v : Option Val) : Prop :=
+  ∃ c recs r, s.lists l = some c ∧ c.data = some recs ∧ recs[i]? = some r ∧ r f = some { data := v, dirty := true } ∧
+    i < (s.mobjs l).length
+
+theorem step_mobjs {cfg : Cfg} {s s1 : Scn} {op : Op} {l : Field} (h : step cfg s op = .ok s1) :
+    (∃ objs, op = .mgrObjs l objs ∧ s1.mobjs l = objs) ∨ ((∀ objs, op ≠ .mgrObjs l objs) ∧ s1.mobjs l = s.mobjs l) := by
+  cases op with
+  | userSet g v =>
+    refine Or.inr ⟨fun _ hv => (by cases hv), ?_⟩
+    simp only [step] at h
+    split at h <;> (cases h; rfl)
+  | userRec k i g v =>
+    refine Or.inr ⟨fun _ hv => (by cases hv), ?_⟩
+    simp only [step] at h
+    split at h
+    · cases h
+    · split at h
+      · cases h
+      · split at h
+        · cases h
+        · split at h <;> (cases h; rfl)
+  | userList k recs =>
+    refine Or.inr ⟨fun _ hv => (by cases hv), ?_⟩
+    simp only [step] at h
+    split at h <;> (cases h; rfl)
+  | mgrSet slot v => simp only [step] at h; cases h; exact Or.inr ⟨fun _ hv => (by cases hv), rfl⟩
+  | mgrObjs k objs =>
+    simp only [step] at h; cases h
+    by_cases hk : k = l
+    · subst hk; exact Or.inl ⟨objs, rfl, by simp⟩
+    · exact Or.inr ⟨fun _ hv => hk (by cases hv; rfl), (by simp [Ne.symm hk])⟩
+  | save =>
+    refine Or.inr ⟨fun _ hv => (by cases hv), ?_⟩
+    rw [(save_rel (by simpa [step] using h)).mobjs]
+
+theorem step_recCell {cfg : Cfg} (ha : cfg.allow = false) {s s1 : Scn} {op : Op} {l : Field} {i : Nat} {f : Field}
+    {v : Option Val} (h : step cfg s op = .ok s1) (hi : RecCellIs s l i f v) (hno : ¬ op.reassigns l i f)
+    (hobjs : ∀ objs, op = .mgrObjs l objs → i < objs.length) : RecCellIs s1 l i f v := by
+  obtain ⟨c, recs, r, hc, hd, hr, hf, hm⟩ := hi
+  have hm1 : i < (s1.mobjs l).length := by
+    rcases step_mobjs (l := l) h with ⟨objs, hop, hs⟩ | ⟨_, hs⟩
+    · rw [hs]; exact hobjs objs hop
+    · rw [hs]; exact hm
+  obtain ⟨c1, hc1, hcase⟩ := step_list h hc
+  cases hcase with
+  | user recs' hop _ => subst hop; exact absurd rfl hno
+  | urec j g w recs' r' x hop hd' hr' hx hc1' =>
+    subst hc1'
+    rw [hd] at hd'; cases hd'
+    by_cases hj : j = i
+    · subst hj
+      rw [hr] at hr'; cases hr'
+      have hg : g ≠ f := fun e => hno (by subst hop; exact ⟨rfl, rfl, e⟩)
+      refine ⟨_, _, recSet r g (x.userSet w), hc1, rfl, ?_, ?_, hm1⟩
+      · have hlt : j < recs.length := by
+          rcases Nat.lt_or_ge j recs.length with h | h
+          · exact h
+          · rw [List.getElem?_eq_none h] at hr; cases hr
+        simp [hlt]
+      · simp [Dirty.recSet, Ne.symm hg, hf]
+    · refine ⟨_, _, r, hc1, rfl, ?_, hf, hm1⟩
+      rw [List.getElem?_set_ne hj]; exact hr
+  | save hop hlib =>
+    obtain ⟨recs', hd1, hk⟩ := hlib.keep recs hd
+    obtain ⟨r', hr', hl⟩ := hk i r hm hr
+    rw [ha] at hl
+    exact ⟨c1, recs', r', hc1, hd1, hr', hl.dirty_cell hf rfl, hm1⟩
+  | same _ hc1' => subst hc1'; exact ⟨_, recs, r, hc1, hd, hr, hf, hm1⟩
+
+theorem run_recCell {cfg : Cfg} (ha : cfg.allow = false) {l : Field} {i : Nat} {f : Field} {v : Option Val} :
+    ∀ (h : List Op) (s s' : Scn), run cfg s h = .ok s' → RecCellIs s l i f v → (∀ op ∈ h, ¬ op.reassigns l i f) →
+      (∀ op ∈ h, ∀ objs, op = .mgrObjs l objs → i < objs.length) → RecCellIs s' l i f v
+  | [], s, s', h, hi, _, _ => by simp [run] at h; subst h; exact hi
+  | op :: ops, s, s', h, hi, hno, hobjs => by
+    obtain ⟨s1, h1, h2⟩ := run_cons h
+    exact run_recCell ha ops s1 s' h2 (step_recCell ha h1 hi (hno op (by simp)) (hobjs op (by simp)))
+      (fun o ho => hno o (by simp [ho])) (fun o ho => hobjs o (by simp [ho]))
+
+/-- every record of list `l` is as loaded (data present, nothing marked) -/
+def RecsLoaded (s : Scn) (l : Field) : Prop :=
+  ∃ c recs, s.lists l = some c ∧ c.data = some recs ∧ ∀ r ∈ recs, RecLoaded r
+
+theorem RecLib.loaded {allow : Bool} {r r' : Rec} (h : RecLib allow r r') (hl : RecLoaded r) : RecLoaded r' := by
+  intro f c' hc'
+  rcases h f with ⟨_, y⟩ | ⟨c, c'', hx, hy, hr⟩
+  · rw [y] at hc'; cases hc'
+  · rw [hy] at hc'; cases hc'
+    have := hl f c hx
+    refine ⟨?_, by rw [hr.1]; exact this.2⟩
+    rcases hr.2 with rfl | ⟨hs, _⟩
+    · exact this.1
+    · exact hs
+
+theorem step_recsLoaded {cfg : Cfg} (hdf : DfltLoaded cfg) {s s1 : Scn} {op : Op} {l : Field}
+    (h : step cfg s op = .ok s1) (hi : RecsLoaded s l) (hno : ¬ op.touchesList l) : RecsLoaded s1 l := by
+  obtain ⟨c, recs, hc, hd, hall⟩ := hi
+  obtain ⟨c1, hc1, hcase⟩ := step_list h hc
+  cases hcase with
+  | user recs' hop _ => subst hop; exact absurd rfl hno
+  | urec j g w recs' r' x hop _ _ _ _ => subst hop; exact absurd rfl hno
+  | save hop hlib =>
+    obtain ⟨recs', hd1, _⟩ := hlib.keep recs hd
+    refine ⟨c1, recs', hc1, hd1, fun r' hr' => ?_⟩
+    obtain ⟨r, hr, hl⟩ := hlib.mem recs recs' hd hd1 r' hr'
+    rcases hr with hr | hr
+    · exact hl.loaded (hall r hr)
+    · subst hr; exact hl.loaded (hdf l)
+  | same _ hc1' => subst hc1'; exact ⟨_, recs, hc1, hd, hall⟩
+
+theorem run_recsLoaded {cfg : Cfg} (hdf : DfltLoaded cfg) {l : Field} : ∀ (h : List Op) (s s' : Scn),
+    run cfg s h = .ok s' → RecsLoaded s l → (∀ op ∈ h, ¬ op.touchesList l) → RecsLoaded s' l
+  | [], s, s', h, hi, _ => by simp [run] at h; subst h; exact hi
+  | op :: ops, s, s', h, hi, hno => by
+    obtain ⟨s1, h1, h2⟩ := run_cons h
+    exact run_recsLoaded hdf ops s1 s' h2 (step_recsLoaded hdf h1 hi (hno op (by simp))) (fun o ho => hno o (by simp [ho]))
+
+theorem RecLoaded.clean {r : Rec} (h : RecLoaded r) : RecClean r := fun f c hc => (h f c hc).2
+
+/-- an object-list link writes the objects' values into records the user never touched -/
+theorem commit_rec_lands {cfg : Cfg} (hdf : DfltLoaded cfg) {s s' : Scn} {pre post : List Push} {l : Field}
+    {refresh : List (Field × Deriv)}
+    (h : commit cfg (pre ++ Push.objs l refresh :: post) s = .ok s') (hpost : ∀ p ∈ post, ¬ p.isObjs l)
+    (hi : RecsLoaded s l) {i : Nat} {o opre opost : MObj} {f : Field} {v : Val}
+    (ho : (s.mobjs l)[i]? = some o) (hsplit : o = opre ++ (f, v) :: opost) (hlast : ∀ x ∈ opost, x.1 ≠ f) :
+    savedRec s' l i f = some v := by
+  obtain ⟨c, recs, hc, hd, hall⟩ := hi
+  obtain ⟨s1, h1, h2⟩ := commit_append _ _ _ _ h
+  obtain ⟨s2, h3, h4⟩ := commit_cons h2
+  have r1 := commit_rel _ _ _ h1
+  rcases r1.lists l with ⟨x, _⟩ | ⟨x, c1, hx, hc1, hlib⟩
+  · rw [hc] at x; cases x
+  · rw [hc] at hx; cases hx
+    obtain ⟨recs1, hd1, _⟩ := hlib.keep recs hd
+    have hall1 : ∀ r ∈ recs1, RecLoaded r := by
+      intro r' hr'
+      obtain ⟨r, hr, hl⟩ := hlib.mem recs recs1 hd hd1 r' hr'
+      rcases hr with hr | hr
+      · exact hl.loaded (hall r hr)
+      · subst hr; exact hl.loaded (hdf l)
+    obtain ⟨c1', c2, recs2, recs', p, hc1', hu, hd2, hco, _, rfl⟩ := pushObjs_spec h3
+    rw [hc1] at hc1'; cases hc1'
+    have hall2 : ∀ r ∈ recs2, RecLoaded r := by
+      intro r hr
+      rcases updateLength_mem hu hd1 hd2 r hr with h | h
+      · exact hall1 r h
+      · subst h; exact hdf l
+    rw [← r1.mobjs] at ho
+    have hi2 : i < recs2.length := by
+      have := commitObjs_ok_length _ _ _ _ hco
+      have : i < (s1.mobjs l).length := by
+        rcases Nat.lt_or_ge i (s1.mobjs l).length with h | h
+        · exact h
+        · rw [List.getElem?_eq_none h] at ho; cases ho
+      omega
+    obtain ⟨r', hr', hcm⟩ := commitObjs_get _ _ _ _ hco i recs2[i] o (List.getElem?_eq_getElem hi2) ho
+    have hval := commitObj_clean _ o _ r' hcm (hall2 _ (List.getElem_mem hi2)).clean opre f v opost hsplit hlast
+    simp [savedRec, savedRecs, commit_frame_list _ _ _ h4 hpost, listSet, hr', hval]
+
 end Aoe.Dirty
